@@ -665,10 +665,83 @@ func runSessionLife(c *Ctx) {
 			return true
 		})
 		c.Check(guarded, "host-cleanup/deletes-on-sender", cleanupDefer.Pos(), "the deferred cleanup deletes the session when the disconnecting peer is the host", "the deferred cleanup does not delete the session for role sender")
+		// every way out of the cleanup either deleted the session, or the peer is not the host, or the farewell message could
+		// not even be built: no other early exit (e.g. "this connection was replaced") may skip the deletion - whoever took over
+		// the peer id is not necessarily a sender, and then nobody ever deletes the session
+		if lit, ok := ast.Unparen(cleanupDefer.Call.Fun).(*ast.FuncLit); ok {
+			li := p.LitInfo(lit)
+			lcfg := li.CFG()
+			linfo := li.Info()
+			exitSpec := &PassSpec{Vias: []Via{
+				{Immediate: true, Call: func(f *FuncInfo, call *ast.CallExpr) (string, bool) {
+					if fi := p.CalleeInfo(f.Info(), call); fi != nil && fi.Name == "session.(*Store).Delete" {
+						return "settled", true
+					}
+					return "", false
+				}},
+				{Cond: func(f *FuncInfo, e ast.Expr) (string, bool, bool) {
+					be, ok := ast.Unparen(e).(*ast.BinaryExpr)
+					if ok && (be.Op == token.EQL || be.Op == token.NEQ) {
+						if sv, isC := constString(f.Info(), be.Y); isC && sv == "sender" {
+							return "settled", be.Op == token.NEQ, true
+						}
+					}
+					return "", false, false
+				}},
+				{Call: func(f *FuncInfo, call *ast.CallExpr) (string, bool) { // the *failure* edge of NewEnvelope is the allowed early exit: modelled below
+					return "", false
+				}},
+			}}
+			// err != nil of protocol.NewEnvelope
+			envErr := map[types.Object]bool{}
+			ast.Inspect(li.Body, func(n ast.Node) bool {
+				if as, ok := n.(*ast.AssignStmt); ok && len(as.Rhs) == 1 && len(as.Lhs) == 2 {
+					if call, ok := ast.Unparen(as.Rhs[0]).(*ast.CallExpr); ok && calleeIs(linfo, call, RepoPkg("pkg/protocol"), "NewEnvelope") {
+						envErr[ObjOf(linfo, as.Lhs[1])] = true
+					}
+				}
+				return true
+			})
+			exitSpec.Vias = append(exitSpec.Vias, Via{Cond: func(f *FuncInfo, e ast.Expr) (string, bool, bool) {
+				if o, nilOnTrue, ok := NilTest(f.Info(), e); ok && envErr[o] {
+					return "settled", !nilOnTrue, true
+				}
+				return "", false, false
+			}})
+			facts := exitSpec.Facts(li)
+			ne := 0
+			for _, b := range lcfg.Blocks {
+				if !b.Live {
+					continue
+				}
+				isExit := len(b.Succs) == 0
+				if !isExit {
+					continue
+				}
+				ne++
+				out := facts.AtEnd(b)
+				pos := lit.End()
+				if len(b.Nodes) > 0 {
+					pos = b.Nodes[len(b.Nodes)-1].Pos()
+				}
+				c.Check(out != nil && out["pass:settled"], fmt.Sprintf("host-cleanup/exit#%d", ne), pos, "this way out of the cleanup deleted the session, or the peer is not the host",
+					"the deferred disconnect cleanup can return without store.Delete although the peer may be the host (an early exit other than role != \"sender\"): the session and its join code outlive the host until the TTL, and keep admitting peers")
+			}
+			if ne == 0 {
+				c.Unknown("host-cleanup/exits", lit.Pos(), "no exit found in the cleanup literal")
+			}
+		}
 		// registered before any return that follows hub.Add
 		spec := &PassSpec{Vias: []Via{
 			{Immediate: true, Call: func(f *FuncInfo, call *ast.CallExpr) (string, bool) {
-				if fi := p.CalleeInfo(f.Info(), call); fi != nil && fi.Name == "peers.(*Hub).Add" {
+				if fi := p.CalleeInfo(f.Info(), call); fi != nil && strings.HasPrefix(fi.Name, "peers.(*Hub).Add") && !hasBoolResult(fi) {
+					return "added", true
+				}
+				return "", false
+			}},
+			// an insertion that can refuse reports it in a trailing bool: the peer is in the hub only on the true edge
+			{Call: func(f *FuncInfo, call *ast.CallExpr) (string, bool) {
+				if fi := p.CalleeInfo(f.Info(), call); fi != nil && strings.HasPrefix(fi.Name, "peers.(*Hub).Add") && hasBoolResult(fi) {
 					return "added", true
 				}
 				return "", false
@@ -784,4 +857,16 @@ func runSessionLife(c *Ctx) {
 			}
 		}
 	})
+}
+
+func hasBoolResult(fi *FuncInfo) bool {
+	if fi == nil || fi.Type == nil || fi.Type.Results == nil {
+		return false
+	}
+	l := fi.Type.Results.List
+	if len(l) == 0 {
+		return false
+	}
+	t := fi.Info().TypeOf(l[len(l)-1].Type)
+	return t != nil && isBool(t)
 }
